@@ -883,6 +883,10 @@ impl Session {
             return Ok(());
         }
 
+        // Take the writer lock before the pending buffer is drained, so that whoever
+        // drains it is also the next one to reach the transport (frames cannot overtake)
+        let writer = self.writer.lock().await;
+
         // Flush buffer if any
         {
             let mut buf = self.buffer.lock().await;
@@ -923,11 +927,15 @@ impl Session {
         }
 
         // Write with padding if enabled
-        self.write_with_padding(buffer).await
+        self.write_with_padding(buffer, writer).await
     }
 
     /// Write buffer to connection with padding applied
-    async fn write_with_padding(&self, mut buffer: BytesMut) -> Result<()> {
+    async fn write_with_padding(
+        &self,
+        mut buffer: BytesMut,
+        mut writer: tokio::sync::MutexGuard<'_, Box<dyn AsyncWrite + Send + Unpin>>,
+    ) -> Result<()> {
         use crate::padding::CHECK_MARK;
         use crate::protocol::{Command, HEADER_OVERHEAD_SIZE};
         use bytes::BufMut;
@@ -938,7 +946,6 @@ impl Session {
                 "[Session] write_with_padding: Writing {} bytes without padding",
                 buffer.len()
             );
-            let mut writer = self.writer.lock().await;
             if let Err(e) = writer.write_all(&buffer).await {
                 // release the writer first: close() locks it again to shut the transport down
                 drop(writer);
@@ -969,7 +976,6 @@ impl Session {
             // Stop padding after stop packets
             // Note: We should probably disable send_padding, but that requires mutable access
             // For now, just write directly
-            let mut writer = self.writer.lock().await;
             if let Err(e) = writer.write_all(&buffer).await {
                 drop(writer);
                 return Err(self.handle_io_error("write_no_padding_stop", e).await);
@@ -986,7 +992,6 @@ impl Session {
 
         // If no sizes defined, write directly
         if pkt_sizes.is_empty() {
-            let mut writer = self.writer.lock().await;
             if let Err(e) = writer.write_all(&buffer).await {
                 drop(writer);
                 return Err(self.handle_io_error("write_no_padding_sizes", e).await);
@@ -997,8 +1002,6 @@ impl Session {
             }
             return Ok(());
         }
-
-        let mut writer = self.writer.lock().await;
 
         for size in pkt_sizes {
             let remain_payload_len = buffer.len();
